@@ -265,6 +265,14 @@ def execute(case):
                 pres = sc.get('pres') or build.identity_presentation(spec)
                 B = build.build(spec, pres, interp=True)
                 g = B.fgg
+                if (case['seed'] + si) % 5 == 0:
+                    # trainable weights: every factor's weights are a non-leaf autograd tensor (a function of a parameter)
+                    for fac in g.factors.values():
+                        w_ = fac.weights
+                        if w_.physical.dtype.is_floating_point and not any(st == 0 for st in w_.physical.stride()):
+                            par = w_.physical.detach().clone().requires_grad_()
+                            fac.weights = sys.modules['fggs.indices'].PatternedTensor(par * 1.0, w_.paxes, w_.vaxes, w_.default)
+                    c.inc('probe.trainable-non-leaf-weights')
                 for name, term in case['extra_labels']:
                     if not g.has_edge_label_name(name):
                         nl = list(g.node_labels())
